@@ -311,6 +311,7 @@ type World struct {
 	staleFips                      []*FipInfo          // entries of earlier listings an administrator may still act on
 	poolBodies                     map[string][][]byte // pool name -> bodies of earlier create-or-update requests
 	aheadNum                       int                 // of 8: how often kube-scheduler works on a pod galaxy-ipam's informer has not seen yet (per-run swarm parameter)
+	inForceLB                      int                 // oldest configuration version that can still be in force (C09)
 	plan                           *faultPlan
 	planFired                      bool
 	recovering                     bool
